@@ -82,7 +82,7 @@ func genSpec(t *rapid.T, tail bool) Spec {
 			}
 		}
 		fn.Form = vgen.Pick(t, nForms, "form")
-		fn.Var = rapid.IntRange(0, 2).Draw(t, "var")
+		fn.Var = rapid.IntRange(0, 11).Draw(t, "var") // 12 = lcm of the per-kind variant counts (3 and 4)
 		fn.Pre = genFillers(t, 3, "pre", true)
 		fn.Post = genFillers(t, 2, "post", true)
 		if i > 0 {
